@@ -28,3 +28,13 @@ func VerifNewMessage(id uint32, part, total uint8, data []byte) p2p.IOVec {
 }
 
 func VerifParseMessage(x []byte) (uint32, uint8, uint8, []byte, error) { return parseMessage(x) }
+
+// VerifAggregatorRun drives one aggregator with a list of fragments: whether each addPart reported the message
+// complete, and what assemble returns at the end.
+func VerifAggregatorRun(parts, totals []uint8, data [][]byte) (done []bool, asm []byte) {
+	a := newAggregator()
+	for i := range parts {
+		done = append(done, a.addPart(parts[i], totals[i], data[i]))
+	}
+	return done, a.assemble()
+}
